@@ -1,0 +1,23 @@
+//go:build verif
+
+// Contracts for package pubmessage, checked by /verif (bfvc). Comment-only.
+package pubmessage
+
+// authenticPub(msg, inner): inner is the decoding of msg's signed data, and msg's signature verifies,
+// under the key embedded in msg's sender ID, over that data in the signing context of inner's channel.
+//@ spec fun authenticPub(msg *peer.SignedMsg, inner *PubMessageInner) bool = msg != nil && inner != nil && pmOK(msg.Data) && inner.Channel == pmChannel(msg.Data) && inner.Channel != "" && content(inner.Data) == pmData(msg.Data) && b58ok(msg.FromPeerId) && msg.Signature != nil && edVerify(pubKeyFromPB(mhDigest(b58dec(msg.FromPeerId))), signBody("bifrost/pubsub/pubmessage 2024-06-05T02:38:47.55258Z channel/" ++ inner.Channel, msg.Signature.HashType, digest(msg.Signature.HashType, msg.Data)), msg.Signature.SigData)
+
+// C27: a published packet verifies only if it decodes, names a channel, and carries a signature by
+// the claimed sender over its data in that channel's signing context; the sender ID is returned.
+//@ func ExtractAndVerify
+//@   nilable msg
+//@   ensures ret3 == nil ==> authenticPub(msg, ret0) && ret2 == b58dec(msg.FromPeerId) && fresh(ret0)
+//@   ensures ret3 != nil ==> ret0 == nil
+
+//@ func (*PubMessageInner).Validate
+//@   nilable-receiver
+//@   ensures ret == nil ==> i != nil && i.Channel != ""
+
+//@ func NewMessage
+//@   ensures ret != nil && ret.pktInner == pktInner && ret.peerID == peerID
+//@   fresh ret
